@@ -1,4 +1,4 @@
-//! C13: canonical rendering of lexemes, values, trees, errors and repair sets.
+//! C13: canonical rendering of lexemes, values, trees, errors and repair lists.
 //! This one file is compiled into BOTH sides of the comparison: the harness
 //! binary `c13` (run-time pipeline) and the throw-away crate that `include!`s the
 //! generated modules (compile-time pipeline), so that the two print in the same
@@ -71,14 +71,16 @@ fn lx(l: &Lx) -> String {
     format!("{}@{}+{}", l.tok_id(), l.span().start(), l.span().len())
 }
 
-/// errors in order; the repair sequences of one error are a SET (sorted)
+/// errors in order; the repair sequences of one error in the ORDER of `ParseError::repairs()` (the first is the
+/// one recovery applied; since /repo ca69cd1 the order is a function of the input).  checks/C13.py sorts them where
+/// it compares them as a set.
 pub fn errs(es: &[LexParseError<u32, LT>]) -> String {
     let mut o = format!("ERRS {}", es.len());
     for e in es {
         match e {
             LexParseError::LexError(e) => write!(o, " L{}:{}", e.span().start(), e.span().end()).unwrap(),
             LexParseError::ParseError(e) => {
-                let mut reps: Vec<String> = e
+                let reps: Vec<String> = e
                     .repairs()
                     .iter()
                     .map(|seq| {
@@ -92,7 +94,6 @@ pub fn errs(es: &[LexParseError<u32, LT>]) -> String {
                             .join(".")
                     })
                     .collect();
-                reps.sort();
                 write!(o, " P{}{{{}}}", lx(e.lexeme()), reps.join(";")).unwrap();
             }
         }
